@@ -15,13 +15,13 @@ ASSUMPTIONS = [
     "relational check: after every step the long-lived object is compared with a freshly created object holding the same settings, as symbolic dictionaries, on both sides of every cache-comparison fork (the solver decides old == new and old != new)",
 ]
 BOUNDS = {
-    "quick": "Sampler and QuickSampler on 2-3 mode circuits with symbolic reflectivity / parameter values / brightness; every sequence of 2 reconfigurations out of 9 (reassign circuit, reassign circuit with the same unitary but a different herald photon number, edit the circuit in place, set a circuit Parameter v1->v2, change input, brightness old->new, backend, post-selection, detector mode) with a distribution read in between or not; sampling without a prior read; Analyzer with and without expected",
+    "quick": "Sampler and QuickSampler on 2-3 mode circuits with symbolic reflectivity / parameter values / brightness; every sequence of 2 reconfigurations out of 11 (reassign circuit, reassign circuit with the same unitary but a different herald photon number, move the herald, edit the circuit in place, set a circuit Parameter v1->v2, change input, brightness old->new, backend, post-selection reassigned, post-selection object edited in place, detector mode) with a distribution read in between or not; sampling without a prior read; Analyzer with and without expected",
     "thorough": "sequences of 3 reconfigurations starting with a herald move, herald photon change, parameter set or input change",
 }
 OUTSIDE = "longer histories; purity/indistinguishability changes (covered for fresh objects by C06)"
 STUBS = ["as C07"]
 
-OPS = ["circuit-new", "circuit-same-U-other-herald", "circuit-herald-moved", "circuit-edit", "param-set", "input", "brightness", "backend", "postselect", "detector-mode"]
+OPS = ["circuit-new", "circuit-same-U-other-herald", "circuit-herald-moved", "circuit-edit", "param-set", "input", "brightness", "backend", "postselect", "postselect-inplace", "detector-mode"]
 
 
 class _Cfg:
@@ -39,7 +39,10 @@ class _Cfg:
         self.input = [1, 0]
         self.brightness = 1
         self.backend = "permanent"
-        self.postselect = None
+        # the quick sampler holds a PostSelection object from the start (empty:
+        # accepts everything) so that it can also be edited in place later
+        self.postselect = lw.PostSelection() if kind == "quick" else None
+        self.ps_assigned = 0
         self.counting = True
         self.n = 0
 
@@ -109,9 +112,15 @@ class _Cfg:
             if self.kind == "sampler":
                 return False
             ps = lw.PostSelection()
-            ps.add(0, 0 if self.postselect is None else 1)
+            ps.add(0, 0 if self.ps_assigned % 2 == 0 else 1)
+            self.ps_assigned += 1
             self.postselect = ps
             obj.post_select = ps
+        elif op == "postselect-inplace":
+            # the PostSelection object the sampler already holds gains a rule
+            if self.kind == "sampler" or 1 in self.postselect.modes:
+                return False
+            self.postselect.add(1, 0)
         elif op == "detector-mode":
             self.counting = not self.counting
             if self.kind == "sampler":
@@ -273,7 +282,7 @@ def harnesses(tier):
     L = 2 if tier == "quick" else 3
     hist = []
     for kind in ("sampler", "quick"):
-        avail = [o for o in OPS if not (kind == "sampler" and o == "postselect") and not (kind == "quick" and o in ("brightness", "backend"))]
+        avail = [o for o in OPS if not (kind == "sampler" and o in ("postselect", "postselect-inplace")) and not (kind == "quick" and o in ("brightness", "backend"))]
         firsts = avail if L == 2 else ["circuit-herald-moved", "circuit-same-U-other-herald", "param-set", "input"]
         for ops in itertools.product(avail, repeat=L):
             if ops[0] not in firsts:
